@@ -21,7 +21,7 @@ from .c08 import minute, quiet
 ID = "C10"
 LEAN_MODULE = "EEM.Props.C10"
 BUILD_TARGETS = ["EEM.Props.C10"]
-MODEL_TARGETS = ["EEM.Model.Sufficiency"]
+MODEL_TARGETS = ["EEM.Model.Sufficiency", "EEM.Model.SufficiencyPlan"]
 DESIGN_REF = "DESIGN.md §5 C10"
 
 P = "eemeter.sufficiency_criteria."
@@ -448,11 +448,21 @@ LEVEL_TEXT = ("Lean 4 theorems about the verdict function of SufficiencyCriteria
               "criterion is violated (all nine names, every frame with a complete row), the 90 % tests are the exact integer comparison "
               "10*n_valid < 9*n_total, the length test is the closed interval 329..365, valid-day counts are monotone in the validity mask and "
               "equal the number of valid rows on whole-day frames. The verdict function is compared with the real classes on the frames the data "
-              "classes hand them; the data classes' verdicts are compared with the criteria evaluated on the generated input.")
-LEVEL_NOTE = ("Hand model of sufficiency_criteria.py; the reduction of a frame row to the fields the checks read is done by the harness; float "
+              "classes hand them; the data classes' verdicts are compared with the criteria evaluated on the generated input. "
+              "T1: the *plan* of the three criteria classes is re-extracted from the source on every run (Gen/SufficiencyPlan: the _check_* methods each "
+              "entry point runs, in order, and for every disqualification the guard around its append - boolean structure, comparison operator, "
+              "threshold with field defaults and local constants folded - plus the criteria class, flag and entry point used by each of the six data "
+              "classes); theorem C10_src_plan_is_verdict proves that interpreting that plan yields exactly the model's verdict for every family, "
+              "entry point and flag, C10_src_reported_iff_violated restates 'reported iff violated' on the source's plan, "
+              "C10_src_call_sites_consistent that every data class calls the entry point matching the flag it passes, "
+              "C10_src_warning_checks_never_disqualify that the warning-only checks cannot change the verdict.")
+LEVEL_NOTE = ("Hand model of sufficiency_criteria.py, its verdict structure tied to the source by T1 (the plan); the quantities the guards compare "
+              "(valid-day fractions, monthly coverage, count of negative readings) are recognised by the text of their defining expressions and "
+              "validated by T2 only; the reduction of a frame row to the fields the checks read is done by the harness; float "
               "division n_valid/float(n_total) vs exact rationals is outside the theorem (T2 covers thresholds one under / at / one over). "
               "Frames are captured by wrapping check_sufficiency_* inside the harness process.")
-TECHNIQUE = "Lean 4 proof (membership iff criterion for every disqualification, exact rational thresholds) + differential correspondence with the sufficiency classes"
+TECHNIQUE = ("Lean 4 proof (membership iff criterion for every disqualification, exact rational thresholds; the plan regenerated from the source "
+             "on every run is proved equal to the model's verdict) + differential correspondence with the sufficiency classes")
 ASSUMPTIONS = ["n_valid/float(n_total) < 0.9 agrees with the exact comparison for n_total <= 10^6 (argued in DESIGN.md, exercised at the thresholds)",
                "requested_start / requested_end are not passed by the data classes and are not modelled",
                "hourly frames: interpolated hours count as missing (the sufficiency frame blanks them), as in the class"]
